@@ -105,7 +105,6 @@ Definition labelling_ok (U : Z -> Z -> bool) (Lb : Z -> Z -> Z) (n : Z) : Prop :
   (forall y x, 0 < Lb y x -> U y x = true).
 
 Definition pair_eqb (p q : Z * Z) : bool := (fst p =? fst q) && (snd p =? snd q).
-Definition cells (h w : nat) : list (Z * Z) := flat_map (fun y => map (fun x => (y, x)) (zrange w)) (zrange h).
 Definition pnth (l : list (Z * Z)) (k : Z) : Z * Z := nth (Z.to_nat (k - 1)) l (-1, -1).
 
 (* certificate for "Lb numbers the 8-components of U with 1..n": neighbours in U share their
